@@ -44,7 +44,9 @@ class fixed_scalar_array(base_array):
         self._values = [self._TYPE._DEFAULT] * self._max_len
 
     def __setitem__(self, idx, value):
-        if isinstance(idx, slice):
+        if isinstance(idx, slice) and idx.step not in (None, 1):
+            self._values[idx] = [self._TYPE._check(elem) for elem in value]
+        elif isinstance(idx, slice):
             self.__setslice__(idx.start, idx.stop, value)
         else:
             value = self._TYPE._check(value)
@@ -95,7 +97,9 @@ class bound_scalar_array(base_array):
         self._values.remove(elem)
 
     def __setitem__(self, idx, value):
-        if isinstance(idx, slice):
+        if isinstance(idx, slice) and idx.step not in (None, 1):
+            self._values[idx] = [self._TYPE._check(elem) for elem in value]
+        elif isinstance(idx, slice):
             self.__setslice__(idx.start, idx.stop, value)
         else:
             value = self._TYPE._check(value)
